@@ -102,3 +102,36 @@ PROPS = {
         "assumptions": ["single allocation failure per run (plus random multi-failure swarm runs)"],
     },
 }
+
+WORLD_RULE = ("whole-system runs: rtr_mgr with 1-2 sockets (real FSM threads, real packets.c/rtr.c/rtr_mgr.c/tables) against simulated caches "
+              "over a simulated transport under the seeded scheduler and simulated clock. Each cache follows a generated script of 2-14 "
+              "exchanges (honest data evolution, Serial Notify, Cache Reset, No-Data, restarts with new session, lost history) into which "
+              "protocol deviations (duplicate announcement, unknown withdrawal, bad flags, session mismatch in Cache Response / End of Data, "
+              "wrong version, bad length, unknown type, unexpected PDUs, missing End of Data) and transport faults (recv/send error, EINTR, "
+              "stream cut with close or stall, connect failure / slow connect) are injected at chosen PDUs / transport calls; afterwards the "
+              "cache answers correctly. Oracles are evaluated at every return of rtr_sync (link-time wrapper), at every query on the wire, at "
+              "every transport open and at stop: a reference walk over the bytes the cache actually sent classifies each exchange from the "
+              "property statements. A run is non-trivial if at least one synchronisation succeeded or changed the tables; distinct = distinct "
+              "run hashes over all events.")
+
+
+def _world(focus, name=None, **kw):
+    d = {"name": name or ("world-" + focus), "kind": "random", "scn": "world", "variant": "asan", "opts": {"focus": focus},
+         "runs_quick": 1500, "time_quick": 40, "runs_thorough": 150000, "time_thorough": 700}
+    d.update(kw)
+    return d
+
+
+PROPS.update({
+    "C03": {"level": "exploration", "rule": WORLD_RULE, "suites": [_world("C03")], "min_counters": {"sync_audits": 500},
+            "expected_probes": ["probe_failed_sync_records_kept", "probe_reload_with_old_data", "walk_fail_dup", "walk_fail_unk", "walk_fail_flags",
+                                "walk_fail_sess-cr", "walk_fail_sess-eod", "sync_with_transport_fault"],
+            "assumptions": ["exchange classification = reference walk over the exact byte stream, written from the property text"]},
+    "C05": {"level": "exploration", "rule": WORLD_RULE, "suites": [_world("C05")], "min_counters": {"queries_seen": 500},
+            "expected_probes": ["probe_cache_reset_consumed", "probe_error_pdu_consumed_code_2", "probe_expired_at_open", "walk_fail_sess-cr", "walk_fail_sess-eod"],
+            "assumptions": ["the session oracle is updated only from bytes on the wire, rtr_sync results and simulated time"]},
+    "C14": {"level": "exploration", "rule": WORLD_RULE, "suites": [_world("C14")], "min_counters": {"client_pdus": 500, "report_audits": 50},
+            "expected_probes": ["probe_report_framing", "probe_report_version", "probe_report_dup", "probe_report_unk", "probe_report_flags",
+                                "probe_report_sess-eod", "probe_report_unexpected", "probe_report_unktype"],
+            "assumptions": ["offending PDU = first PDU of the stream a correct client must refuse (family order for payload errors)"]},
+})
